@@ -578,6 +578,9 @@ def m_path_join(it, fr, *parts):
 ARGMIN = z3.Function('argmin', z3.ArraySort(z3.IntSort(), z3.RealSort()), z3.IntSort(), z3.IntSort())
 
 
+NEAREST = z3.Function('nearest', z3.ArraySort(z3.IntSort(), z3.RealSort()), z3.IntSort(), z3.RealSort(), z3.IntSort())
+
+
 def m_np_argmin(it, fr, a):
     """numpy.argmin of a non-empty 1-d array: the FIRST index of a minimal element.  The result is a function of the (re-based) array and its
     length, so two calls on equal arrays give the same index; the characterisation is assumed per call (trusted numpy semantics)."""
@@ -589,7 +592,15 @@ def m_np_argmin(it, fr, a):
     J = z3.Int('j!am')
     el = z3.Select(s.arr, z3.simplify(s.off + J))
     arr = ops.LAM(J, z3.ToReal(el) if s.ek == 'int' else el)
-    r = ARGMIN(arr, s.n)
+    pv = ops.PROV.get(s.arr.get_id())
+    if pv is not None and pv[0] == 'absdiff' and z3.is_int_value(z3.simplify(s.off)) and z3.simplify(s.off).as_long() == 0:
+        # argmin(abs(c - k)): the index is a function of the array c, its length and the SCALAR k, so that equal scalars give equal indices by
+        # congruence (no reasoning about equality of lambda terms is needed)
+        base = pv[1]
+        carr = ops.LAM(J, z3.Select(base.arr, z3.simplify(base.off + J)))
+        r = NEAREST(carr, s.n, pv[2])
+    else:
+        r = ARGMIN(arr, s.n)
     at = lambda i: z3.Select(arr, i)
     it.pc.append(z3.And(r >= 0, r < s.n))
     it.pc.append(z3.ForAll([J], z3.Implies(z3.And(J >= 0, J < s.n), at(r) <= at(J))))
